@@ -45,6 +45,22 @@ use std::panic::{catch_unwind, AssertUnwindSafe};
 // ------------------------------------------------------------------------------------------------
 // small helpers
 
+/// C03_DEBUG=1: to stderr; C03_DEBUG=/path: appended to that file (cases run in child processes without stderr)
+macro_rules! t_debug {
+    ($($a:tt)*) => {{
+        let line = format!($($a)*);
+        match std::env::var("C03_DEBUG") {
+            Ok(p) if p.contains('/') => {
+                use std::io::Write;
+                if let Ok(mut f) = std::fs::OpenOptions::new().create(true).append(true).open(&p) {
+                    let _ = writeln!(f, "{}", line);
+                }
+            }
+            _ => eprintln!("{}", line),
+        }
+    }};
+}
+
 fn be16(v: &mut Vec<u8>, x: u16) {
     v.extend_from_slice(&x.to_be_bytes());
 }
@@ -131,6 +147,9 @@ struct GsubSpec {
     fv: Option<Vec<(Conds, Substs)>>,
     nlookups: u16,
     naxes: u16,
+    /// `NLOOKUPSxSTRIDE`: every lookup is an Extension lookup (type 7, Offset32) whose SingleSubst subtable (and
+    /// its Coverage) lies STRIDE bytes after the previous one: a layout table larger than 64 KiB
+    ext: Option<u32>,
 }
 
 fn plist<T: std::str::FromStr>(s: &str) -> Vec<T>
@@ -210,7 +229,13 @@ fn parse_spec(s: &str) -> GsubSpec {
         }
         g.fv = Some(recs);
     }
-    g.nlookups = p[3].parse().unwrap();
+    match p[3].split_once('x') {
+        Some((n, st)) => {
+            g.nlookups = n.parse().unwrap();
+            g.ext = Some(st.parse::<u32>().unwrap().clamp(12, 1 << 20));
+        }
+        None => g.nlookups = p[3].parse().unwrap(),
+    }
     g.naxes = p[4].parse().unwrap();
     g
 }
@@ -266,7 +291,11 @@ fn show_spec(g: &GsubSpec) -> String {
             .collect::<Vec<_>>()
             .join(","),
     };
-    format!("{}!{}!{}!{}!{}", f, s, v, g.nlookups, g.naxes)
+    let nl = match g.ext {
+        Some(st) => format!("{}x{}", g.nlookups, st),
+        None => g.nlookups.to_string(),
+    };
+    format!("{}!{}!{}!{}!{}", f, s, v, nl, g.naxes)
 }
 
 fn feature_table(lookups: &[u16]) -> Vec<u8> {
@@ -343,20 +372,45 @@ fn gsub_bytes(g: &GsubSpec) -> Vec<u8> {
     // lookup list
     let mut ll = vec![];
     be16(&mut ll, g.nlookups);
-    for i in 0..g.nlookups as usize {
-        be16(&mut ll, (2 + 2 * g.nlookups as usize + 20 * i) as u16);
-    }
-    for i in 0..g.nlookups {
-        be16(&mut ll, 1); // type: single
-        be16(&mut ll, 0); // flag
-        be16(&mut ll, 1); // subtable count
-        be16(&mut ll, 8); // subtable offset
-        be16(&mut ll, 1); // format 1
-        be16(&mut ll, 6); // coverage offset
-        be16(&mut ll, 40); // delta
-        be16(&mut ll, 1); // coverage format 1
-        be16(&mut ll, 1); // count
-        be16(&mut ll, i + 1); // glyph
+    let single = |ll: &mut Vec<u8>, i: u16| {
+        be16(ll, 1); // format 1
+        be16(ll, 6); // coverage offset
+        be16(ll, 40); // delta
+        be16(ll, 1); // coverage format 1
+        be16(ll, 1); // count
+        be16(ll, i + 1); // glyph
+    };
+    if let Some(stride) = g.ext {
+        let n = g.nlookups as usize;
+        for i in 0..n {
+            be16(&mut ll, (2 + 2 * n + 16 * i) as u16);
+        }
+        let p0 = 2 + 2 * n + 16 * n + 6;
+        for i in 0..n {
+            be16(&mut ll, 7); // type: extension
+            be16(&mut ll, 0); // flag
+            be16(&mut ll, 1); // subtable count
+            be16(&mut ll, 8); // subtable offset
+            be16(&mut ll, 1); // format 1
+            be16(&mut ll, 1); // extension lookup type: single
+            let ext_pos = 2 + 2 * n + 16 * i + 8;
+            be32(&mut ll, (p0 + i * stride as usize - ext_pos) as u32);
+        }
+        for i in 0..n {
+            ll.resize(p0 + i * stride as usize, 0);
+            single(&mut ll, i as u16);
+        }
+    } else {
+        for i in 0..g.nlookups as usize {
+            be16(&mut ll, (2 + 2 * g.nlookups as usize + 20 * i) as u16);
+        }
+        for i in 0..g.nlookups {
+            be16(&mut ll, 1); // type: single
+            be16(&mut ll, 0); // flag
+            be16(&mut ll, 1); // subtable count
+            be16(&mut ll, 8); // subtable offset
+            single(&mut ll, i);
+        }
     }
     // feature variations
     let mut fv = vec![];
@@ -900,7 +954,7 @@ fn f_history<T: FontTableProvider>(mk: &dyn Fn() -> Option<Font<T>>, hist: &str,
         // a panicking call is a result like any other (RefCell guards are released while unwinding)
         let r = f_op(&mut font, op);
         if debug {
-            eprintln!("history {} -> {}", op, r);
+            t_debug!("history {} -> {}", op, r);
         }
         if op.starts_with("ef:") {
             cfg = vec![op];
@@ -915,7 +969,7 @@ fn f_history<T: FontTableProvider>(mk: &dyn Fn() -> Option<Font<T>>, hist: &str,
     // a second probe on the same object must also agree (a cache filled by the probe itself)
     let c = f_op(&mut font, probe);
     if debug {
-        eprintln!("probe {} -> after history: {}\n fresh: {}\n again: {}", probe, a, b, c);
+        t_debug!("probe {} -> after history: {}\n fresh: {}\n again: {}", probe, a, b, c);
     }
     if c != a {
         return format!("{} {}", dig(&c), dig(&b));
@@ -1181,22 +1235,6 @@ fn t_op(t: &mut GlyfTable<'_>, op: &str, exact: bool) -> String {
     r.unwrap_or_else(|e| panic_kind(&*e).to_string())
 }
 
-/// C03_DEBUG=1: to stderr; C03_DEBUG=/path: appended to that file (cases run in child processes without stderr)
-macro_rules! t_debug {
-    ($($a:tt)*) => {{
-        let line = format!($($a)*);
-        match std::env::var("C03_DEBUG") {
-            Ok(p) if p.contains('/') => {
-                use std::io::Write;
-                if let Ok(mut f) = std::fs::OpenOptions::new().create(true).append(true).open(&p) {
-                    let _ = writeln!(f, "{}", line);
-                }
-            }
-            _ => eprintln!("{}", line),
-        }
-    }};
-}
-
 fn run_t(spec: &str, hist: &str, probe: &str) -> String {
     let (pre, glyf, loca_bytes, n) = t_tables(spec);
     // byte-exact comparison of written tables only when every glyph is in the writer's own encoding
@@ -1459,7 +1497,7 @@ fn gen_spec(rng: &mut Rng) -> GsubSpec {
         }
         Some(recs)
     };
-    GsubSpec { features, scripts, fv, nlookups, naxes }
+    GsubSpec { features, scripts, fv, nlookups, naxes, ext: None }
 }
 
 /// a GSUB shaped like real variable fonts: `rvrn` (and one more feature) in every LangSys, FeatureVariations
@@ -1494,7 +1532,7 @@ fn gen_spec_rvrn(rng: &mut Rng) -> GsubSpec {
         }
         recs.push((Conds::Set(vec![(rng.below(naxes as u64) as u16, lo, hi)]), Substs::Table(l)));
     }
-    GsubSpec { features, scripts, fv: Some(recs), nlookups, naxes }
+    GsubSpec { features, scripts, fv: Some(recs), nlookups, naxes, ext: None }
 }
 
 fn gen_tuple_str(rng: &mut Rng, naxes: u16) -> String {
@@ -1733,13 +1771,46 @@ fn gen_f_long(rng: &mut Rng) -> String {
     format!("F|{}|{}|{}", fx.path, hist.join(";"), probe)
 }
 
+/// a layout table larger than 64 KiB: every lookup is an Extension lookup, the subtables (and their Coverage
+/// tables) lie STRIDE bytes apart - exactly, nearly or not at all a multiple of 2^16 / 2^8; each feature selects
+/// one lookup, the history shapes with some features, the probe with another one (lookups are parsed lazily,
+/// their Coverage objects are memoised by position)
+fn gen_f_ext(rng: &mut Rng) -> String {
+    const FT: &[&str] = &["liga", "ccmp", "calt", "locl", "smcp", "frac", "clig"];
+    let n = 2 + rng.below(5) as usize;
+    let features: Vec<(u32, Vec<u16>)> = (0..n).map(|i| (t4(FT[i]), vec![i as u16])).collect();
+    let all: Vec<u16> = (0..n as u16).collect();
+    let latn = Script { tag: t4("latn"), default: Some(all.clone()), langs: vec![] };
+    let stride = *rng.pick(&[65536u32, 65536, 65536, 131072, 196608, 65534, 65538, 32768, 256, 4096]);
+    let g = GsubSpec { features, scripts: vec![latn], fv: None, nlookups: n as u16, naxes: 0, ext: Some(stride) };
+    let text = "61.62.63.64.65.66.67.68";
+    let shape = |rng: &mut Rng| {
+        let mut m = mask_of(FT[rng.below(n as u64) as usize]);
+        if rng.chance(1, 4) {
+            m |= mask_of(FT[rng.below(n as u64) as usize]);
+        }
+        format!("sh:{}:-:m{}:-:0:n:{}", t4("latn"), m, text)
+    };
+    let h = 1 + rng.below(3);
+    let hist: Vec<String> = (0..h).map(|_| shape(rng)).collect();
+    format!("F|syn:{}|{}|{}", show_spec(&g), hist.join(";"), shape(rng))
+}
+
 fn gen_f(rng: &mut Rng) -> String {
     if rng.chance(1, 25) {
         return gen_f_long(rng);
     }
+    if rng.chance(1, 16) {
+        return gen_f_ext(rng);
+    }
     let (name, mut scripts, mut langs, cps, axes, nglyphs): (String, Vec<String>, Vec<String>, Vec<u32>, u16, u16) =
         if rng.chance(1, 4) {
-            let g = if rng.chance(1, 2) { gen_spec_rvrn(rng) } else { gen_spec(rng) };
+            let mut g = if rng.chance(1, 2) { gen_spec_rvrn(rng) } else { gen_spec(rng) };
+            if rng.chance(1, 3) {
+                // a layout table larger than 64 KiB: Extension lookups whose subtables (and Coverage tables) lie
+                // exactly / nearly a multiple of 2^16, 2^8 bytes apart
+                g.ext = Some(*rng.pick(&[65536u32, 65536, 131072, 65534, 65538, 32768, 256, 12]));
+            }
             let sc: Vec<String> = SCRIPTS_L.iter().map(|s| t4(s).to_string()).collect();
             let la: Vec<String> = LANGS_L.iter().map(|s| t4(s).to_string()).collect();
             (format!("syn:{}", show_spec(&g)), sc, la, (0x61..0x6b).collect(), g.naxes.max(1), NGLYPHS)
